@@ -17,7 +17,7 @@ import ast
 import inspect
 import sys
 
-from .ty import (Any, Bool, Bytes, Dict, Int, NodeTy, NoneT, Opaque, Opt, Rec, SeqOf, Str, TupleOf, Ty)  # noqa: F401
+from .ty import (Any, Assoc, Bool, Bytes, Dict, Int, NodeTy, NoneT, Opaque, Opt, Rec, SeqOf, Str, TupleOf, Ty)  # noqa: F401
 
 REGISTRY: dict[str, "Contract"] = {}
 LEMMAS: list["Lemma"] = []
@@ -134,6 +134,44 @@ def call(target, *args, **kwargs):
     """Inside a lemma: call the real function (natively) / apply its contract (symbolically)."""
     from .native import call_target
     return call_target(target, *args, **kwargs)
+
+
+def opaque(fn):
+    """Spec function whose definition is hidden from the solver (an uninterpreted function) unless an instance
+    is revealed with reveal(fn, *args). Needs pyvc type annotations. Natively: the plain function."""
+    fn.__pyvc_opaque__ = True
+    return fn
+
+
+def reveal(fn, *args):
+    """Make the definition of an @opaque spec function available at these arguments. Natively a no-op."""
+    return True
+
+
+def is_str_list(x):
+    """x is a list all of whose elements are str (symbolically: the LS representation of a dynamic value)."""
+    return isinstance(x, list) and all(isinstance(e, str) for e in x)
+
+
+def is_any_list(x):
+    """x is a list of arbitrary values (symbolically: the LV representation of a dynamic value)."""
+    return isinstance(x, list)
+
+
+def as_str_list(x):
+    """View a dynamic value as list[str] (symbolically: the LS payload). Natively the identity."""
+    return x
+
+
+def as_list(x):
+    """View a dynamic value as list[Any] (symbolically: the LV payload). Natively the identity."""
+    return x
+
+
+def ih(lemma_fn, *args):
+    """Inside a lemma proved by induction: the induction hypothesis at structurally smaller arguments
+    (first argument must be a strictly shorter sequence / smaller non-negative int). Natively a no-op."""
+    return True
 
 
 def mk(ty, **fields):
